@@ -165,6 +165,7 @@ structure LInv (own : String) (s : LState) : Prop where
         (Fn.block ∈ p.fns → own ∉ p.view) ∧ (Fn.allow ∈ p.fns → own ∈ p.view)
   j5 : ∀ p, s.base.pending = some p → s.base.rv ≠ s.cycViewRv → s.queue ≠ []
   j6 : ∀ p, s.base.pending = some p → p.fns = [] → s.cycDelays = false → Waiting own s.base → s.queue ≠ []
+  j9 : ∀ p, s.base.pending = some p → s.cycUserFns = false
 
 theorem linv_init {own : String} {s : LState} (h : LInit s) : LInv own s := by
   obtain ⟨hb, hq, _, _, _, _⟩ := h
@@ -180,8 +181,8 @@ theorem linv_init {own : String} {s : LState} (h : LInit s) : LInv own s := by
 
 
 theorem linv_decide {own : String} {s s' : LState} {e : Env} {v : Snap} (h : LInv own s)
-    (hs : lstep own s (.base (.decide e v)) = some s') : LInv own s' := by
-  obtain ⟨hm, hq, j1, jr, j3, j4, j5, j6⟩ := h
+    (hg : LGuard (.base (.decide e v))) (hs : lstep own s (.base (.decide e v)) = some s') : LInv own s' := by
+  obtain ⟨hm, hq, j1, jr, j3, j4, j5, j6, j9⟩ := h
   simp only [lstep] at hs
   split at hs
   · cases hs
@@ -281,10 +282,12 @@ theorem linv_decide {own : String} {s s' : LState} {e : Env} {v : Snap} (h : LIn
         subst hrest
         simp [hc] at hcons
       · exact hstale hfresh
+    · intro p _
+      exact hg
 
 theorem linv_merge {own : String} {s s' : LState} (h : LInv own s)
     (hs : lstep own s (.base .mergePatch) = some s') : LInv own s' := by
-  obtain ⟨hm, hq, j1, jr, j3, j4, j5, j6⟩ := h
+  obtain ⟨hm, hq, j1, jr, j3, j4, j5, j6, j9⟩ := h
   simp only [lstep] at hs
   cases hb : step own s.base .mergePatch with
   | none => simp [hb] at hs
@@ -327,6 +330,8 @@ theorem linv_merge {own : String} {s s' : LState} (h : LInv own s)
           · intro p' hp' hnil hd hw
             simp only [Option.some.injEq] at hp'; subst hp'
             exact enqueue_ne_nil_of_ne (j6 p hp hnil hd hw)
+          · intro p' _
+            exact j9 p hp
         · simp only [hmc, if_true] at hb
           cases hb
           have hbump : s.base.rv + 1 ≠ s.base.rv := by omega
@@ -345,12 +350,14 @@ theorem linv_merge {own : String} {s s' : LState} (h : LInv own s)
             exact enqueue_ne_nil_of_bump hbump
           · intro p' _ _ _ _
             exact enqueue_ne_nil_of_bump hbump
+          · intro p' _
+            exact j9 p hp
       · cases hb
     · cases hb
 
 theorem linv_touch {own : String} {s s' : LState} (h : LInv own s)
     (hs : lstep own s .touch = some s') : LInv own s' := by
-  obtain ⟨hm, hq, j1, jr, j3, j4, j5, j6⟩ := h
+  obtain ⟨hm, hq, j1, jr, j3, j4, j5, j6, j9⟩ := h
   simp only [lstep] at hs
   split at hs
   · next hc =>
@@ -459,7 +466,7 @@ theorem lstep_foreign {own : String} {s s' : LState} {l : Label} (hl : l.isForei
 
 theorem linv_foreign {own : String} {s s' : LState} {l : Label} (h : LInv own s) (hl : l.isForeign = true)
     (hs : lstep own s (.base l) = some s') : LInv own s' := by
-  obtain ⟨hm, hq, j1, jr, j3, j4, j5, j6⟩ := h
+  obtain ⟨hm, hq, j1, jr, j3, j4, j5, j6, j9⟩ := h
   obtain ⟨b, hb, rfl⟩ := lstep_foreign hl hs
   obtain ⟨hp, hmem, hw, hfin⟩ := foreign_step_frame hl hb
   have hq' := qok_enqueue hq hb
@@ -503,10 +510,12 @@ theorem linv_foreign {own : String} {s s' : LState} {l : Label} (h : LInv own s)
     by_cases hr : b.rv = s.base.rv
     · exact enqueue_ne_nil_of_ne (j6 p (hp ▸ hpp) hnil hd (hw hr hwait))
     · exact enqueue_ne_nil_of_bump hr
+  · intro p hpp
+    exact j9 p (hp ▸ hpp)
 
 theorem linv_json {own : String} {s s' : LState} {f : Bool} (h : LInv own s) (hg : LGuard (.base (.jsonPatch f)))
     (hs : lstep own s (.base (.jsonPatch f)) = some s') : LInv own s' := by
-  obtain ⟨hm, hq, j1, jr, j3, j4, j5, j6⟩ := h
+  obtain ⟨hm, hq, j1, jr, j3, j4, j5, j6, j9⟩ := h
   have hf : f = false := hg
   subst hf
   simp only [lstep] at hs
@@ -536,7 +545,7 @@ theorem linv_json {own : String} {s s' : LState} {f : Bool} (h : LInv own s) (hg
         · rfl
         · exact qok_same hq rfl rfl
         · intro _ hw
-          show s.queue ≠ [] ∨ sleepsAfter s.cycDelays (changedUnwritten s.cycMerge s.cycChanges p.fns) = true
+          show s.queue ≠ [] ∨ sleepsAfter s.cycDelays (changedUnwritten s.cycMerge s.cycChanges s.cycUserFns p.fns) = true
           by_cases hfresh : s.base.rv = s.cycViewRv
           · obtain ⟨h4b, h4a⟩ := j4 p hp hfresh
             by_cases hnil : p.fns = []
@@ -547,7 +556,7 @@ theorem linv_json {own : String} {s s' : LState} {f : Bool} (h : LInv own s) (hg
                   · rfl
                   · exact absurd hfresh (j3 p hp hc)
                 right
-                cases hcm : s.cycMerge <;> simp [sleepsAfter, changedUnwritten, hnil, hcc]
+                cases hcm : s.cycMerge <;> simp [sleepsAfter, changedUnwritten, hnil, hcc, j9 p hp]
             · exact absurd hnoop (fns_change own p.fns p.view h4b h4a hnil)
           · exact Or.inl (j5 p hp hfresh)
         all_goals (intro p' hp'; simp at hp')
@@ -585,7 +594,7 @@ theorem linv_step {own : String} {s s' : LState} {l : LLabel} (h : LInv own s) (
   | touch => exact linv_touch h hs
   | base bl =>
     cases bl with
-    | decide e v => exact linv_decide h hs
+    | decide e v => exact linv_decide h hg hs
     | mergePatch => exact linv_merge h hs
     | jsonPatch f => exact linv_json h hg hs
     | restart => exact linv_restart h hs
